@@ -213,6 +213,9 @@ func c07corpus(c *Ctx) []c07text {
 		`{"":1,"a":{"":null},"é":"\/","A":false}`,
 		`  {"neg":-12.50,"big":9007199254740993,"exp":1E+2,"small":-1e-7}  `,
 		`"just a string"`, `42`, `-0.0`, `true`, `null`, `[]`, `{}`,
+		// member order is by code point, not by UTF-16 code unit: supplementary-plane keys sort after U+E000..U+FFFF
+		"{\"\U0001F600\":2,\"\uFF21\":1,\"a\U00010000b\":3,\"a\uE000b\":4,\"\u007f\":5,\"\u0080\":6,\"Z\":7,\"\":8}",
+		"[{\"b\":[1,2],\"a\":[[1,2],{\"a\":1}]},[[1,2]],[{\"a\":1}],[]]",
 	} {
 		out = append(out, c07text{fmt.Sprintf("lit:%d", i), []byte(s)})
 	}
